@@ -217,3 +217,16 @@ impl IterativeQuery {
         done
     }
 }
+
+#[cfg(mainline_verif)]
+impl IterativeQuery {
+    /// Verification hook: (candidates, responders, visited addresses, in-flight transaction ids).
+    pub fn verif_state(&self) -> (Vec<Node>, Vec<Node>, Vec<SocketAddrV4>, Vec<u32>) {
+        (
+            self.closest.nodes().to_vec(),
+            self.responders.nodes().to_vec(),
+            self.visited.iter().copied().collect(),
+            self.inflight_requests.clone(),
+        )
+    }
+}
